@@ -8,8 +8,8 @@ CLAIMED = {
   "Theorem c16_iff (Lean 4, all strings, both directions): the model of detect_parser_type classifies a URI as ecosystem k iff the URI names a supported manifest of k (declarative spec); corollaries: none iff unsupported, functional (never another ecosystem's rules), workflow priority, executable spec = model. Tables regenerated from src/parser/types.rs on every run; model run against the real detect_parser_type on 7k-60k generated URIs (full product of prefixes x look-alike names).",
   "Trusted: Lean kernel; tools/extract.py pattern extraction of the suffix/dir tables; Text.lean model of str::ends_with/contains/match_indices (validated by the correspondence stream). The resolver-table consistency (parser/matcher/registry of one ecosystem) is tied by correspondence only."),
  "C03": ("4.3",
-  "Theorems over all version lists (Lean 4): tag wins; result is a member; never a prerelease when ignored; SemVer-highest among kept (c03_is_max); none iff nothing kept; c03_set_invariant: any two fill histories leaving the same SET of version strings (any order, batching, repetition) give cmp-equal latest — proved from the total-preorder instance of the semver Ord model (core TransCmp combinators). Executable acceptance predicate proved to accept the model (c03_acceptable) and used to judge the real get_latest_version on real SQLite rows for random fill histories, plus metamorphic order pairs.",
-  "Trusted: Lean kernel; semver crate parse/Ord re-modelled in Model/Semver.lean (tied by the semver correspondence stream, 166k cases); SQLite row order treated as arbitrary (model applied to rows actually read). History-level isolation between packages/registries is the C08 refinement."),
+  "Theorems over all version lists (Lean 4): tag wins; result is a member; never a prerelease when ignored; SemVer-highest among kept (c03_is_max); none iff nothing kept; c03_set_invariant: any two fill histories leaving the same SET of version strings (any order, batching, repetition) give cmp-equal latest — proved from the total-preorder instance of the semver Ord model (core TransCmp combinators); monotonicity: c03_grow_mono / c03_append_mono (a superset of version strings never yields a SemVer-lower latest), c03_ignore_le (ignoring prereleases never raises the answer), c03_setting_irrelevant_on_stable; over whole cache HISTORIES (Props/C03History.lean, corollaries of the C08 refinement): c03_history (two arbitrary operation histories - any order, batching, claims, marks, re-opens, other packages and registries interleaved - that stored the same set of versions and the same last non-empty tag map under a key give the same latest: same string when it is the tag, cmp-equal otherwise), c03_isolation (operations on other packages or on the same name under another registry never change it), c03_history_mono. Executable acceptance predicate proved to accept the model (c03_acceptable) and used to judge the real get_latest_version on real SQLite rows for random fill histories, plus metamorphic order pairs.",
+  "Trusted: Lean kernel; semver crate parse/Ord re-modelled in Model/Semver.lean (tied by the semver correspondence stream, 166k cases); SQLite row order treated as arbitrary (model applied to rows actually read). History-level statements (c03_history, c03_isolation) rest on the relational cache model of C08, tied to the real SQLite cache by the C08 and C03 correspondence streams."),
 }
 PENDING_REASON = "check under construction in this session (model/theorems not yet committed); will be claimed once its theorem file, correspondence stream and evidence exist"
 
